@@ -2051,9 +2051,8 @@ func readFileHeader(f io.Reader, compressed bool, fileEncoding string) ([]byte, 
 		return nil, err
 	}
 
-	if br != nil {
-		releaseBrotliReader(br)
-	}
+	// br is not given back to its pool: it stopped in the middle of its
+	// stream, and Reset does not drop the input such a reader has buffered.
 
 	if zr != nil {
 		releaseGzipReader(zr)
